@@ -444,7 +444,7 @@ def run_check(prop, spec, tier, seed):
 
     # ---- replay candidates natively (debug, then release)
     threaded = {sc['name'] for sc in spec['scenarios'] if sc.get('threads')}
-    stress_runs = 150
+    stress_runs = 60
     if need_replay:
         ensure_built(need_release=True)
     os.makedirs(os.path.join(ROOT, 'evidence', 'replays'), exist_ok=True)
@@ -460,15 +460,16 @@ def run_check(prop, spec, tier, seed):
             if what.startswith('panic:DEADLOCK'):
                 return n['code'] == 'timeout'
             return n['code'] == 101 or n['code'] == 'timeout'
-        nd = native(scn, shp, v, profile='debug')
-        nr = native(scn, shp, v, profile='release')
+        tmo = 8 if scn in threaded else 60
+        nd = native(scn, shp, v, profile='debug', timeout=tmo)
+        nr = native(scn, shp, v, profile='release', timeout=tmo)
         if scn in threaded and not (confirms(nd) or confirms(nr)):
             # schedule-dependent: stress replay with delay injection at the library's sync points
             for attempt in range(1, stress_runs + 1):
-                nd = native(scn, shp, v, profile='debug', delay_seed=attempt * 7919, timeout=20)
+                nd = native(scn, shp, v, profile='debug', delay_seed=attempt * 7919, timeout=5)
                 if confirms(nd):
                     break
-                nr = native(scn, shp, v, profile='release', delay_seed=attempt * 104729, timeout=20)
+                nr = native(scn, shp, v, profile='release', delay_seed=attempt * 104729, timeout=5)
                 if confirms(nr):
                     break
         cd, cr = confirms(nd), confirms(nr)
